@@ -1,7 +1,7 @@
 (* Driver for the extracted C04 model, float instantiation (IEEE double = OCaml float; the ring operations and the
    scalar activation functions are passed as ordinary function arguments, no Extract Constant).
    Reads the case file of harness/c04_models.cpp, one output line per input line:
-     LIN act off nin nout | params | B nin X | C       -> OK np= rt= eb= e1= wpd= wid= wdp= wdi=
+     LIN act off nin nout | params | B nin X | C       -> OK np= rt= eb= e1= wpd= wid= wdp= wdi= km=(kink margin of rectifier layers)
      NET k (1 LIN act off nin nout)*k | params | X | C  -> the same keys (net_eval / net_eval_batch / net_back)
      NRM n off | params | X | C                         -> OK np= rt= eb= e1=
      CLS off nin nout nb bias.. | params | X            -> OK np= rt= eb= e1=
@@ -38,6 +38,15 @@ let rec chunks n = function [] -> [] | l ->
   let rec take k acc r = if k = 0 then (List.rev acc, r) else (match r with [] -> (List.rev acc, []) | x :: r' -> take (k - 1) (x :: acc) r') in
   let (a, r) = take n [] l in a :: chunks n r
 
+(* kink margin of a rectifier layer on one input row: min_o |pre_o| / (1 + sum_i |w_oi x_i| + |b_o|); a value below ~1e-10 on a
+   non-dyadic case means the sign of the rectifier argument is decided by rounding (the derivative comparison is then skipped by
+   tools/c04.py, the values are still compared) *)
+let margin_row (ly : float layer) (x : float list) : float =
+  let pre = lin_pre z fadd fmul ly x in
+  let absl = { lW = List.map (List.map Float.abs) ly.lW; lb = List.map Float.abs ly.lb; lact = ly.lact } in
+  let sc = lin_pre z fadd fmul absl (List.map Float.abs x) in
+  List.fold_left2 (fun m p s -> Float.min m (Float.abs p /. (1.0 +. s))) infinity pre sc
+
 let read_x seg =
   match toks seg with
   | b :: n :: rest -> let b = int_of_string b and n = int_of_string n in
@@ -69,8 +78,9 @@ let () =
               let wpd = lin_wpd z fadd fmul (nat_of_int ni) (nat_of_int no) ly x c in
               let wid = lin_wid z fadd fmul (nat_of_int ni) ly x c in
               let (wdp, wdi) = lin_wd z fadd fmul (nat_of_int ni) (nat_of_int no) ly x c in
-              Printf.sprintf "OK np=%d rt=%s eb=%s e1=%s wpd=%s wid=%s wdp=%s wdi=%s" np (csv (lin_params ly))
-                (csv (List.concat eb)) (csv (List.concat e1)) (csv wpd) (csv (List.concat wid)) (csv wdp) (csv (List.concat wdi))
+              let km = if a = 1 then List.fold_left (fun m r -> Float.min m (margin_row ly r)) infinity x else infinity in
+              Printf.sprintf "OK np=%d rt=%s eb=%s e1=%s wpd=%s wid=%s wdp=%s wdi=%s km=%s" np (csv (lin_params ly))
+                (csv (List.concat eb)) (csv (List.concat e1)) (csv wpd) (csv (List.concat wid)) (csv wdp) (csv (List.concat wdi)) (pf km)
             | "NET" ->
               let k = i 1 in
               let ok = ref (Array.length spec = 2 + 6 * k) in
@@ -90,8 +100,12 @@ let () =
                 let eb = net_eval_batch z fadd fmul nt x in
                 let e1 = List.map (net_eval z fadd fmul nt) x in
                 let (g, d) = net_back z fadd fmul nt x c in
-                Printf.sprintf "OK np=%d rt=%s eb=%s e1=%s wpd=%s wid=%s wdp=%s wdi=%s" np (csv (net_params nt))
-                  (csv (List.concat eb)) (csv (List.concat e1)) (csv g) (csv (List.concat d)) (csv g) (csv (List.concat d))
+                let acts = List.init k (fun j -> i (2 + 6 * j + 2)) in
+                let km = List.fold_left (fun m row ->
+                    let (m', _) = List.fold_left2 (fun (m, xr) ((_, ly) : (nat * nat) * float layer) a ->
+                        ((if a = 1 then Float.min m (margin_row ly xr) else m), lin_eval z fadd fmul ly xr)) (m, row) nt acts in m') infinity x in
+                Printf.sprintf "OK np=%d rt=%s eb=%s e1=%s wpd=%s wid=%s wdp=%s wdi=%s km=%s" np (csv (net_params nt))
+                  (csv (List.concat eb)) (csv (List.concat e1)) (csv g) (csv (List.concat d)) (csv g) (csv (List.concat d)) (pf km)
               end
             | "NRM" ->
               let n = i 1 and off = i 2 <> 0 in
